@@ -654,6 +654,7 @@ class Emitter:
         self.cont_used = set()
         self.loop_depth = 0
         self.outlined = []
+        self.rename = {}
         sig = self.signature(fi)
         n = fi['node']
         body_lines = []
@@ -865,7 +866,7 @@ class Emitter:
 
     def vardecl(self, d, out):
         ct = self.ctype(d['type'])
-        name = d['name']
+        name = self.rename.get(d['id'], d['name'])
         if d.get('storageClass') == 'static':
             raise ExtractError('static local %s' % name)
         init = inner(d)
@@ -1058,7 +1059,7 @@ class Emitter:
         for rd in free:
             ct = self.ctype(rd['type'])
             is_ref = self.ref_vars.get(rd['id'], ct.is_ref)
-            nm = rd['name']
+            nm = self.rename.get(rd['id'], rd['name'])
             base = CType(ct.base, ct.cname, True, ct.is_const, ct.ptr, ct.info)
             params.append(base.decl(nm))
             args.append(nm if is_ref else '&' + nm)
@@ -1232,6 +1233,13 @@ class Emitter:
         init, rng, beg, end, cond, inc, var, body = raw
         if init.get('kind'):
             raise ExtractError('range-for with init statement')
+        # clang's names for the hidden variables (__range2, __begin0, ...) depend on its scope depth:
+        # give them canonical names keyed by the loop ordinal so that loop contracts can mention them
+        k = self.loop_ord + 1
+        for stmt_, nm in ((rng, 'it_range%d'), (beg, 'it_begin%d'), (end, 'it_end%d')):
+            for d in inner(stmt_):
+                if d.get('kind') == 'VarDecl':
+                    self.rename[d['id']] = nm % k
         out.add('{')
         out.ind += 1
         self.stmt(rng, out)
@@ -1442,7 +1450,7 @@ class Emitter:
     def lv_DeclRefExpr(self, e, out):
         rd = e['referencedDecl']
         if rd['kind'] in ('VarDecl', 'ParmVarDecl', 'BindingDecl'):
-            name = rd['name']
+            name = self.rename.get(rd['id'], rd['name'])
             if name.startswith('G_') or name.startswith('bg_'):
                 raise ExtractError('identifier %s collides with ghost namespace' % name)
             is_ref = self.ref_vars.get(rd['id'])
